@@ -303,6 +303,22 @@ func c08Programs() []c08Prog {
 			}},
 		{Name: "target-reference", Target: "//:t", Files: map[string]string{"BUILD.dawn": "@target()\ndef a():\n    print(1)\n\n@target(deps=[a])\ndef t():\n    print(a)\n"},
 			Muts: []c08Mut{{"own code", "BUILD.dawn", "print(a)", "print(a, 1)", true}}},
+		{Name: "two-lambdas", Target: "//:t", Files: map[string]string{"BUILD.dawn": "A = lambda v: v + 10\nB = lambda v: v + 20\n\ndef mk(q):\n    def inner(v):\n        return v + q\n    return inner\n\nC1 = mk(30)\nC2 = mk(40)\n\n@target()\ndef t():\n    print(A(1), B(1), C1(1), C2(1))\n"},
+			Muts: []c08Mut{
+				{"second of two same-named functions (lambda)", "BUILD.dawn", "v + 20", "v + 21", true},
+				{"first lambda", "BUILD.dawn", "v + 10", "v + 11", true},
+				{"free variable of the second closure of one factory", "BUILD.dawn", "mk(40)", "mk(41)", true},
+			}},
+		{Name: "alias-after-recursion", Target: "//:t", Files: map[string]string{"BUILD.dawn": "def walk(n):\n    if n == 0:\n        return 0\n    return walk(n - 1)\n\nlimits = {\"depth\": 3}\n\ncurrent = limits\n\ndef pick():\n    return current\n\n@target()\ndef t():\n    print(walk(limits[\"depth\"]), pick())\n"},
+			Muts: []c08Mut{
+				{"alias re-pointed from a dict to the recursive function", "BUILD.dawn", "current = limits", "current = walk", true},
+				{"dict content", "BUILD.dawn", "{\"depth\": 3}", "{\"depth\": 4}", true},
+			}},
+		{Name: "hash-ordered-containers", Target: "//:t", Files: map[string]string{"BUILD.dawn": "S = set([\"include/alpha/first_header.h\", \"include/beta/second_header.h\", \"include/gamma/third_header.h\", \"include/delta/fourth_header.h\"])\nD = {\"a-rather-long-key-number-one\": 1, \"a-rather-long-key-number-two\": 2, \"a-rather-long-key-number-three\": 3}\n\n@target()\ndef t():\n    print(S, D, os, sh)\n"},
+			Muts: []c08Mut{
+				{"set element", "BUILD.dawn", "third_header.h", "third_header.hpp", true},
+				{"dict value", "BUILD.dawn", "number-two\": 2", "number-two\": 22", true},
+			}},
 		{Name: "function-keyed-dict", Target: "//:t", Files: map[string]string{"BUILD.dawn": "def f():\n    pass\n\nD = {f: 1}\n\n@target()\ndef t():\n    print(D)\n"},
 			Muts: []c08Mut{{"value under a function key", "BUILD.dawn", "{f: 1}", "{f: 2}", true}}},
 	}
